@@ -305,6 +305,25 @@ fn mode_purity() {
     }
 }
 
+/// `ID \t source` per line -> `ID \t canonical tokens` (proc_macro2 lexing only; `lexerr` when it does not lex)
+fn mode_lex() {
+    let stdin = std::io::stdin();
+    let stdout = std::io::stdout();
+    let mut out = std::io::BufWriter::new(stdout.lock());
+    for line in stdin.lock().lines() {
+        let line = line.unwrap();
+        let mut it = line.splitn(2, '\t');
+        let (id, src) = match (it.next(), it.next()) {
+            (Some(a), Some(b)) => (a, b),
+            _ => continue,
+        };
+        match TokenStream::from_str(src) {
+            Ok(ts) => writeln!(out, "{}\t{}", id, canon(ts)).unwrap(),
+            Err(_) => writeln!(out, "{}\tlexerr", id).unwrap(),
+        }
+    }
+}
+
 fn main() {
     // Panics of the code under test are expected outcomes; keep stderr quiet.
     std::panic::set_hook(Box::new(|_| {}));
@@ -314,6 +333,7 @@ fn main() {
         "oracle" => mode_expand(true),
         "tables" => tables::print_tables(),
         "purity" => mode_purity(),
+        "lex" => mode_lex(),
         _ => {
             eprintln!("usage: jharness expand|oracle|tables|purity");
             std::process::exit(2);
